@@ -305,3 +305,79 @@ def glasso_admm(S, lam, iters=20000, tol=1e-11):
   if np.linalg.eigvalsh(Zs).min() > 0:
     return Zs / s, conv
   return (X + X.T) / 2 / s, conv
+
+
+# ----------------------------------------------------------------------------- MMC
+
+def mmc_fD(diffD, A):
+  return math.log(float(np.sqrt(np.maximum(np.einsum('ij,jk,ik->i', diffD, A, diffD), 0)).sum()) + 1e-6)
+
+
+def mmc_fD1(diffD, A):
+  dist = np.sqrt(np.maximum(np.einsum('ij,jk,ik->i', diffD, A, diffD), 0))
+  G = np.zeros_like(A)
+  for v, dd in zip(diffD, dist):
+    G += np.outer(v, v) * (0.5 / (dd + 1e-6))
+  return G / (dist.sum() + 1e-6)
+
+
+def mmc_grad_projection(g1, g2):
+  g2 = g2 / np.linalg.norm(g2)
+  gt = g1 - np.sum(g1 * g2) * g2
+  return gt / np.linalg.norm(gt)
+
+
+def mmc_project(A, W, t, max_proj, eps=0.01):
+  """alternating projection onto {sum_S d^2 <= t} and the PSD cone until within 1% of the budget.
+  Returns (A, satisfied, rounds, min_margin) - min_margin: how close any branch decision came to flipping."""
+  wv = W.ravel()
+  wn = np.linalg.norm(wv)
+  w1, t1 = wv / wn, t / wn
+  margin = float('inf')
+  for it in range(max_proj):
+    x0 = A.ravel()
+    s = wv.dot(x0)
+    margin = min(margin, abs(s - t) / max(abs(t), 1e-300))
+    if s > t:
+      A = (x0 + (t1 - w1.dot(x0)) * w1).reshape(A.shape)
+    l, V = np.linalg.eigh((A + A.T) / 2)
+    A = (V * np.maximum(0, l)).dot(V.T)
+    err = (wv.dot(A.ravel()) - t) / t
+    margin = min(margin, abs(err - eps))
+    if err < eps:
+      return A, True, it + 1, margin
+  return A, False, max_proj, margin
+
+
+def mmc_reference(A0, diffS, diffD, max_iter, max_proj, tol):
+  """reference run of the documented projected-gradient scheme (Xing et al. 2002).  Returns the last kept
+  iterate, the first projection, and the smallest branch margin seen."""
+  W = diffS.T.dot(diffS)
+  t = float((W * A0).sum()) / 100.0
+  A = A0.copy()
+  alpha = 0.1
+  Mg = mmc_grad_projection(W, mmc_fD1(diffD, A))
+  A_old = A.copy()
+  margin = float('inf')
+  first = None
+  for cycle in range(max_iter):
+    A, ok, rounds, mg = mmc_project(A, W, t, max_proj)
+    margin = min(margin, mg)
+    if cycle == 0:
+      first = (A.copy(), ok, rounds)
+    op, o = mmc_fD(diffD, A_old), mmc_fD(diffD, A)
+    if cycle != 0:
+      margin = min(margin, abs(o - op))
+    if ok and (o > op or cycle == 0):
+      alpha *= 1.05
+      A_old = A.copy()
+      Mg = mmc_grad_projection(mmc_fD1(diffD, A), W)
+      A = A + alpha * Mg
+    else:
+      alpha /= 2
+      A = A_old + alpha * Mg
+    delta = np.linalg.norm(alpha * Mg) / np.linalg.norm(A_old)
+    margin = min(margin, abs(delta - tol) / tol)
+    if delta < tol:
+      break
+  return A_old, first, margin, t
